@@ -503,10 +503,11 @@ def draw_insert(draw, info):
     ref = draw(st.sampled_from(names)) if names and where != 'none' else None
     if ref is None:
         where = 'none'
-    existing = bool(names) and draw(st.integers(0, 5)) == 0
+    exnames = info.opdims()   # not the IOAPI bookkeeping dimensions
+    existing = bool(exnames) and draw(st.integers(0, 5)) == 0
     if existing:
         # add an existing dimension to the variables that lack it
-        name = draw(st.sampled_from(names))
+        name = draw(st.sampled_from(exnames))
         length = info.dims[name][0]
         newonly = True
     else:
